@@ -1,1 +1,107 @@
+(* Rewrite/Properties.v — property theorems of C36 only; proofs live in Proofs.v.
+
+   path/tmp/bak are directory entry names, old/new complete file contents, a directory maps
+   names to contents.  [ops_fixed] is rewriteFile of tools/langlint/lint.go as repaired
+   (fixed temp name, one rename over the target), [ops_old] the sequence before the repair. *)
+From Common Require Import Base.
 From Rewrite Require Import Model Proofs.
+Open Scope N_scope.
+
+(* The process may stop between any two operations or in the middle of one.  Under the file
+   system assumption [atomic_fs] (rename/create/unlink happen entirely or not at all, a torn
+   write has appended a prefix of its data) the target path always holds the complete original
+   or the complete formatted content. *)
+Theorem C36_crash_safe :
+  forall mid, atomic_fs mid ->
+  forall (path tmp : name) (old new : content) (d0 : dir),
+    tmp <> path -> d0 path = Some old ->
+    forall d, crash_state mid (ops_fixed path tmp new) d0 d ->
+      d path = Some old \/ d path = Some new.
+Proof. exact fixed_crash_safe. Qed.
+
+(* the same in the form of the design document: every prefix of the operation list *)
+Theorem C36_prefix_safe :
+  forall (path tmp : name) (old new : content), tmp <> path ->
+    C36_statement path old new (ops_fixed path tmp new).
+Proof. exact fixed_statement. Qed.
+
+(* a complete run changes the target and nothing else: no temporary, no backup file *)
+Theorem C36_no_litter :
+  forall (path tmp : name) (old new : content) (d0 : dir),
+    tmp <> path -> d0 path = Some old -> d0 tmp = None ->
+    let d' := run (ops_fixed path tmp new) d0 in
+    d' path = Some new /\ same_except path d' d0.
+Proof. exact fixed_no_litter. Qed.
+
+(* langlint run (read, format with any formatter fmt, rewrite if changed) killed anywhere, then
+   run again to completion: the second run succeeds, the directory is the original one except
+   for the target (the stale temp file of the killed run is gone), and the target holds the
+   formatted content (or the twice formatted one, should fmt not be idempotent - that is C35). *)
+Theorem C36_later_run_clean :
+  forall mid, atomic_fs mid ->
+  forall (fmt : content -> content) (path tmp : name) (old : content) (d0 : dir),
+    tmp <> path -> d0 path = Some old -> d0 tmp = None ->
+    forall ops1, lint_ops (ops_fixed path tmp) fmt path d0 = Some ops1 ->
+    forall d, crash_state mid ops1 d0 d ->
+      (d path = Some old \/ d path = Some (fmt old)) /\
+      exists ops2, lint_ops (ops_fixed path tmp) fmt path d = Some ops2 /\
+        let d' := run ops2 d in
+        same_except path d' d0 /\ (d' path = Some (fmt old) \/ d' path = Some (fmt (fmt old))).
+Proof. exact later_run_clean. Qed.
+
+(* rewriteFile before the repair: after rename(path -> backup) nothing is called path *)
+Theorem C36_old_refuted :
+  forall (path tmp bak : name) (old new : content), tmp <> path -> bak <> path ->
+    ~ C36_statement path old new (ops_old path tmp bak new).
+Proof. exact old_refuted. Qed.
+
+(* ... and a run killed after CreateTemp left a file that no later run removed *)
+Theorem C36_old_litter_refuted :
+  forall (path tmp tmp' bak : name) (new : content) (d0 : dir),
+    tmp <> path -> tmp <> bak -> tmp <> tmp' ->
+    let crashed := run (firstn 1 (ops_old path tmp bak new)) d0 in
+    run (ops_old path tmp' bak new) crashed tmp = Some [].
+Proof. exact old_litter. Qed.
+
+(* ---- non-vacuity: names 0 = target, 1 = temp, 2 = backup, 3 = a bystander file *)
+Definition ex_d0 : dir := dir_of [(0, [122;61;49;10;97;61;50;10]); (3, [120])].   (* "z=1\na=2\n" *)
+Definition ex_new : content := [97;61;50;10;122;61;49;10].                          (* "a=2\nz=1\n" *)
+
+(* a write torn after 3 bytes is a crash state of the repaired sequence; the hypotheses of
+   C36_crash_safe hold for it and the target still holds the original *)
+Example C36_crash_safe_nonvacuous :
+  atomic_fs mid_posix /\
+  crash_state mid_posix (ops_fixed 0 1 ex_new) ex_d0
+    (apply (run (firstn 1 (ops_fixed 0 1 ex_new)) ex_d0) (Write 1 (firstn 3 ex_new))) /\
+  apply (run (firstn 1 (ops_fixed 0 1 ex_new)) ex_d0) (Write 1 (firstn 3 ex_new)) 1 = Some [97;61;50] /\
+  apply (run (firstn 1 (ops_fixed 0 1 ex_new)) ex_d0) (Write 1 (firstn 3 ex_new)) 0 = ex_d0 0.
+Proof.
+  split; [exact mid_posix_atomic|]. split; [|split; reflexivity].
+  apply (cs_during mid_posix _ _ 1%nat (Write 1 ex_new)); [reflexivity|].
+  right. right. exists 1, ex_new, 3%nat. split; reflexivity.
+Qed.
+
+Example C36_prefix_safe_nonvacuous :
+  map (fun k => run (firstn k (ops_fixed 0 1 ex_new)) ex_d0 0) (seq 0 7)
+  = [ex_d0 0; ex_d0 0; ex_d0 0; ex_d0 0; ex_d0 0; Some ex_new; Some ex_new].
+Proof. reflexivity. Qed.
+
+Example C36_no_litter_nonvacuous :
+  ex_d0 0 <> None /\ ex_d0 1 = None /\
+  map (run (ops_fixed 0 1 ex_new) ex_d0) [0;1;2;3] = [Some ex_new; None; None; Some [120]].
+Proof. repeat split; try reflexivity; discriminate. Qed.
+
+(* second run after a kill between write and rename, fmt = "sort the two lines" on this input *)
+Definition ex_fmt (c : content) : content := if str_eqb c [122;61;49;10;97;61;50;10] then ex_new else c.
+Example C36_later_run_clean_nonvacuous :
+  lint_ops (ops_fixed 0 1) ex_fmt 0 ex_d0 = Some (ops_fixed 0 1 ex_new) /\
+  let d := run (firstn 3 (ops_fixed 0 1 ex_new)) ex_d0 in
+  d 1 = Some ex_new /\
+  lint_ops (ops_fixed 0 1) ex_fmt 0 d = Some (ops_fixed 0 1 ex_new) /\
+  map (run (ops_fixed 0 1 ex_new) d) [0;1;2;3] = [Some ex_new; None; None; Some [120]].
+Proof. repeat split; reflexivity. Qed.
+
+Example C36_old_refuted_witness :
+  run (firstn 5 (ops_old 0 1 2 ex_new)) ex_d0 0 = None /\
+  run (ops_old 0 4 2 ex_new) (run (firstn 1 (ops_old 0 1 2 ex_new)) ex_d0) 1 = Some [].
+Proof. split; reflexivity. Qed.
